@@ -57,6 +57,24 @@ def _solve(vc, timeout_ms, seed=None):
             import re as _re
             with open(os.path.join(d, _re.sub(r'[^A-Za-z0-9_.-]+', '_', vc.name) + f'-{id(vc) % 10000}.smt2'), 'w') as f:
                 f.write(s.sexpr() + '\n(check-sat)\n')
+        # candidate search 1: the same query without its quantified facts (weaker constraints: a model is only a
+        # candidate input for native replay, never a verdict)
+        try:
+            from .symexec import _has_quant
+            qf = [f for f in vc.facts if not _has_quant(f)]
+            ng = z3.Not(vc.goal)
+            s2 = z3.Solver()
+            s2.set('timeout', min(timeout_ms, 5000))
+            s2.add(*qf)
+            s2.add(ng)
+            t1 = time.time()
+            if s2.check() == z3.sat:
+                vc.model, vc.candidate = s2.model(), True
+            vc.seconds += time.time() - t1
+        except z3.Z3Exception:
+            pass
+        if vc.model is not None:
+            return vc
         # ground refuter: own pattern instantiation; unsat is a proof, sat a candidate for native replay only
         try:
             from . import ground
